@@ -1,6 +1,6 @@
 (* Runner.v — top of the executable model: dispatches one request line. *)
 From Coq Require Import String.
-From GS Require Import GoSem Text Dispatch DispatchHuman DispatchParsers DispatchScan DispatchRef DispatchConfig DispatchOutput DispatchOptions DispatchMeter.
+From GS Require Import GoSem Text Dispatch DispatchHuman DispatchParsers DispatchScan DispatchRef DispatchConfig DispatchOutput DispatchOptions DispatchMeter DispatchProtocol.
 Open Scope N_scope.
 
 Definition first_some (l : list (option bytes)) : bytes :=
@@ -19,6 +19,7 @@ Definition dispatch (line : bytes) : bytes :=
                    dispatch_config cmd args;
                    dispatch_output cmd args;
                    dispatch_options cmd args;
-                   dispatch_meter cmd args ]
+                   dispatch_meter cmd args;
+                   dispatch_protocol cmd args ]
   | [] => err "empty"
   end.
